@@ -39,15 +39,11 @@ VARIABLES entries, gaps, ord,          \* input: entry list, gap detection, iden
           rowsets, rows                \* extended rows as pair sequences / as texts
 vars == <<entries, gaps, ord, pc, k, lifted, canon, seq, ridx, prev, partner, strands, pieces, rowsets, rows>>
 
-\* chain 1: G1 C2 (water 3) G5 ; chain 2: U1.  C2 is not bonded to G5: two numbers are missing.
-\* ord = FALSE: chain 1 is named "B" and chain 2 "A", so identifiers sort against the file order.
+\* the demonstration structure of Mapping2D; ord = FALSE: chain 1 is named "B" and chain 2 "A",
+\* so the residue identifiers sort against the file order
 Res == LET o == IF ord THEN <<1, 2, 3, 4, 5>> ELSE <<2, 3, 4, 5, 1>> IN
-  << [chain |-> 1, number |-> 1, nuc |-> TRUE,  letter |-> "G", conn |-> TRUE,  okey |-> o[1]],
-     [chain |-> 1, number |-> 2, nuc |-> TRUE,  letter |-> "C", conn |-> FALSE, okey |-> o[2]],
-     [chain |-> 1, number |-> 3, nuc |-> FALSE, letter |-> "X", conn |-> FALSE, okey |-> o[3]],
-     [chain |-> 1, number |-> 5, nuc |-> TRUE,  letter |-> "G", conn |-> FALSE, okey |-> o[4]],
-     [chain |-> 2, number |-> 1, nuc |-> TRUE,  letter |-> "U", conn |-> FALSE, okey |-> o[5]] >>
-NucIdx == {1, 2, 4, 5}
+       [ j \in 1..Len(DemoShape) |-> [okey |-> o[j]] @@ DemoShape[j] ]
+NucIdx == DemoNuc
 Ends   == NucIdx \cup (IF WithAbsent THEN {0} ELSE {})
 EntryDomain == { [a |-> x, b |-> y, lw |-> l, sa |-> ""] :
                    x \in Ends, y \in Ends, l \in Classes } \ { e \in [a : NucIdx, b : NucIdx, lw : Classes, sa : {""}] : e.a = e.b }
